@@ -90,15 +90,26 @@ class Particle:
         if part_list.type != ValueType.ELEMENT or not part_list.is_array:
             raise ValueError('"particleSystemDefinitions" must be an element array!')
 
+        # Attributes handled specially, everything else is a generic option.
+        special = {
+            'renderers', 'operators', 'initializers',
+            'emitters', 'forces', 'constraints', 'children',
+        }
+
         def generic_attr(el: Element, name: str) -> list['Operator']:
+            # Do not pop, the caller's DMX tree must be left intact.
             try:
-                value = el.pop(name)
+                value = el[name]
             except KeyError:
                 return []
             if value.type is not ValueType.ELEMENT or not value.is_array:
                 raise ValueError('{} must be an element array!')
             return [
-                Operator(ele.name, ele.pop('functionName').val_str, copy.deepcopy(dict(ele)))
+                Operator(ele.name, ele['functionName'].val_str, {
+                    key: copy.deepcopy(attr)
+                    for key, attr in ele.items()
+                    if key != 'functionname'
+                })
                 for ele in value.iter_elem()
             ]
 
@@ -110,7 +121,7 @@ class Particle:
             forces = generic_attr(elem, 'forces')
             constraints = generic_attr(elem, 'constraints')
             try:
-                child_attr = elem.pop('children')
+                child_attr = elem['children']
                 if child_attr.type is not ValueType.ELEMENT or not child_attr.is_array:
                     raise ValueError('Children must be an element array!')
             except KeyError:
@@ -122,8 +133,9 @@ class Particle:
                 ]
             # Everything else.
             options = {
-                value.name.casefold(): copy.deepcopy(value)
-                for value in elem.values()
+                key: copy.deepcopy(value)
+                for key, value in elem.items()
+                if key not in special
             }
 
             systems[elem.name.casefold()] = Particle(
